@@ -181,7 +181,12 @@ def run_tree(acc: Acc, ctx: Ctx, n_leaves: int, tree, pairs) -> None:
                     ctx.a.value, ctx.b.value = batch_a, batch_b
                     want = wants
                 got = rule.activate_with(ctx.norms[conj], ctx.norms[disj])
-                acc.transitions += 1
+                again = rule.activate_with(ctx.norms[conj], ctx.norms[disj])
+                acc.transitions += 2
+                if not np.array_equal(np.asarray(got, dtype=float), np.asarray(again, dtype=float), equal_nan=True):
+                    acc.violate("not-repeatable", {}, {"antecedent": text, "style": style, "postfix": want_postfix, "conjunction": conj,
+                                                       "disjunction": disj}, fl.Op.str(got), fl.Op.str(again),
+                                f"{text!r}: the second evaluation of the same loaded rule gives {again}, the first {got}")
                 g = [float(v) for v in np.atleast_1d(np.asarray(got, dtype=float))]
                 if len(g) == 1 and len(want) > 1:
                     g = g * len(want)  # constant antecedent (e.g. `any`, disabled variable) broadcasts
